@@ -10,6 +10,7 @@
 #include "types.h"
 #include "utils.h"
 #include "value.h"
+#include "verif_hooks.h"
 
 #include <algorithm>
 #include <chrono>
@@ -172,13 +173,18 @@ Search::Search(const Position& position, const Limits& limits,
 
 void Search::stop()
 {
+    VERIF_POINT(VERIF_PT_STOP_ENTRY, this, 0);
     stop_search = true;
+    VERIF_POINT(VERIF_PT_STOP_EXIT, this, 0);
 }
 
 void Search::go()
 {
+    VERIF_POINT(VERIF_PT_GO_ENTRY, this, 0);
     init_search();
+    VERIF_POINT(VERIF_PT_GO_AFTER_INIT, this, 0);
     stop_search = false;
+    VERIF_POINT(VERIF_PT_GO_AFTER_RESET, this, 0);
     _start_time = std::chrono::steady_clock::now();
 
     // check if there is only one move to make
@@ -189,6 +195,7 @@ void Search::go()
     iter_search();
 
     ASSERT(_best_move != NO_MOVE);
+    VERIF_POINT(VERIF_PT_GO_BEFORE_BESTMOVE, this, 0);
     sync_cout << "bestmove " << _position.uci(_best_move) << sync_endl;
 }
 
@@ -316,6 +323,7 @@ void Search::iter_search()
             _best_move = realInfo->_pv_list[0];
         }
         previous_moves[_current_depth] = _best_move;
+        VERIF_POINT(VERIF_PT_ITER_DONE, this, 0);
 
         if (is_mate(result)) break;
 
@@ -340,6 +348,7 @@ Value Search::search(Position& position, Depth depth, Value alpha, Value beta,
     LOG_DEBUG("[%d] ENTER SEARCH depth=%d alpha=%ld beta=%ld pvNode=%d fen=%s",
               info->_ply, depth, alpha, beta, static_cast<int>(PV_NODE), position.fen().c_str());
 
+    VERIF_POINT(VERIF_PT_NODE, &position, info);
     if (stop_search || check_limits())
     {
         stop_search = true;
@@ -458,6 +467,7 @@ Value Search::search(Position& position, Depth depth, Value alpha, Value beta,
             -search(position, reducedDepth, -beta, -beta + 1, info + 1);
         LOG_DEBUG("[%d] UNDO MOVE nullmove", info->_ply);
         position.undo_null_move(moveinfo);
+        VERIF_POINT(VERIF_PT_AFTER_UNDO, &position, info);
 
         if (result >= beta && depth < 14)
         {
@@ -557,6 +567,7 @@ Value Search::search(Position& position, Depth depth, Value alpha, Value beta,
         }
 
         position.undo_move(move, moveinfo);
+        VERIF_POINT(VERIF_PT_AFTER_UNDO, &position, info);
         LOG_DEBUG("[%d] UNDO MOVE %s", info->_ply,
                   position.uci(move).c_str());
 
@@ -657,6 +668,7 @@ Value Search::quiescence_search(Position& position, Depth depth, Value alpha,
     LOG_DEBUG("[%d] ENTER QUIESCENCE_SEARCH depth=%d alpha=%ld beta=%ld isPV=%d fen=%s",
               info->_ply, depth, alpha, beta, static_cast<int>(PV_NODE), position.fen().c_str());
 
+    VERIF_POINT(VERIF_PT_QNODE, &position, info);
     if (stop_search || check_limits())
     {
         stop_search = true;
@@ -725,6 +737,7 @@ Value Search::quiescence_search(Position& position, Depth depth, Value alpha,
         }
 
         position.undo_move(move, moveinfo);
+        VERIF_POINT(VERIF_PT_AFTER_UNDO, &position, info);
         LOG_DEBUG("[%d] UNDO MOVE %s", info->_ply,
                   position.uci(move).c_str());
 
